@@ -200,7 +200,7 @@ def run_unit(unit):
         res["functions"] = dict(eng.sources)
         res["inlined"] = sorted(eng.inlined)
         res["assumed"] = sorted(eng.assumed)
-        res["bounded"] = bool(eng.bounded_used)
+        res["bounded"] = bool(eng.bounded_used) or bool(getattr(unit, "bounded_by_construction", False))
         seen = set()
         n_bad = 0
         for (label, pc, goal, trace, tags) in eng.obligations:
